@@ -35,6 +35,7 @@ def run(ctx):
     ctx.do(rule_truncate)
     ctx.do(rule_utc)
     ctx.do(rule_no_relabel)
+    ctx.do(rule_value_object)
     ctx.do(rule_api_domain)
     ctx.do(rule_property_forward)
     from .hidden_state import rule_no_hidden_state
@@ -342,6 +343,52 @@ def rule_no_relabel(ctx, rule_id="C15.utc"):
                       found=short(c))
     if n < 2:
         raise AnalysisError("fewer than 2 time-zone labelling sites found (%d): anchors lost" % n)
+
+
+def rule_value_object(ctx, rule_id="C15.value-object"):
+    """STIXdatetime is the carrier of an instant plus (precision, constraint).  Three structural clauses, each a necessary
+    condition of "written as the same instant, with the digits the slot prescribes":
+      aware-on-every-path   parse_into_datetime turns a naive datetime into an aware UTC one (the library MEANS UTC for naive
+                            values when it writes them; kept naive they cannot be compared with parsed values)
+      copies-all-fields     building a STIXdatetime from a datetime copies every field that determines the instant -- `fold`
+                            (PEP 495) included
+      survives-copy         copy / deepcopy / pickle rebuild through __reduce_ex__: it must hand the metadata on, or a copied
+                            value is written with other digits than its original"""
+    run = ctx.run
+    prog = ctx.prog
+    pd = prog.func(U + "::parse_into_datetime")
+    rel = pd.module.relpath
+    vparam = pd.params[0]
+    ok = False
+    for n in body_walk(pd.node):
+        if isinstance(n, ast.If) and ".tzinfo is None" in norm(n.test) and any(
+                pol and "isinstance(%s, dt.date)" % vparam in norm(t) for t, pol, _ in guard_chain(n)):
+            if any(isinstance(x, ast.Assign) and isinstance(x.value, ast.Call) and call_simple_name(x.value) in ("localize", "replace")
+                   for b_ in n.body for x in walk_no_nested(b_)):
+                ok = True
+    run.check(ok, rule_id, key(rel, pd.qualname, "aware-on-every-path"),
+              "a timezone-naive datetime passes through parse_into_datetime unchanged: the object holds a naive value (written as "
+              "UTC), its parsed serialisation holds an aware one -- the two objects are not equal, and versioning / stores raise "
+              "TypeError when they compare the two kinds", file=rel, line=pd.node.lineno, function=pd.qualname,
+              expected="if ts.tzinfo is None [or utcoffset is None]: ts = pytz.utc.localize(ts)", found="no naive test in the datetime branch")
+    sd = prog.cls(U + "::STIXdatetime")
+    new = sd.methods.get("__new__")
+    if new is None:
+        raise AnalysisError("anchor missing: STIXdatetime.__new__")
+    fields = {x.attr for x in body_walk(new.node) if isinstance(x, ast.Attribute) and isinstance(x.ctx, ast.Load)}
+    want = {"year", "month", "day", "hour", "minute", "second", "microsecond", "tzinfo", "fold"}
+    run.check(want <= fields, rule_id, key(rel, "STIXdatetime.__new__", "copies-all-fields"),
+              "STIXdatetime built from a datetime does not copy %s: inside the repeated hour at the end of daylight saving time "
+              "the copy denotes the other of the two instants (written one hour early)" % sorted(want - fields), file=rel,
+              line=new.node.lineno, function="STIXdatetime.__new__", expected=sorted(want), found=sorted(fields & want))
+    red = sd.methods.get("__reduce_ex__") or sd.methods.get("__reduce__")
+    okr = red is not None and "precision" in norm(red.node) and "precision_constraint" in norm(red.node) and (
+        "__reduce_ex__" in sd.methods or ("__deepcopy__" in sd.methods and "__copy__" in sd.methods))
+    run.check(okr, rule_id, key(rel, "STIXdatetime", "survives-copy"),
+              "STIXdatetime inherits datetime.__reduce_ex__, which rebuilds through __new__ without the precision metadata: a "
+              "copied / deep-copied / unpickled timestamp is written with other digits than its original (.120Z -> .12Z, "
+              ".000Z -> Z)", file=rel, line=sd.node.lineno, function="STIXdatetime",
+              expected="__reduce_ex__ returning the (precision, precision_constraint) state", found=sorted(sd.methods))
 
 
 def rule_api_domain(ctx):
